@@ -56,6 +56,27 @@ Theorem C02_code_ack : forall (A E : Type) (s : mres A E) (g : ghosts) (i : Z) v
 Proof. intros A E. exact (@gen_ack_eq A E). Qed.
 Print Assumptions C02_code_ack.
 
+(* IMapIterator._set / _set_length and IMapUnorderedIterator._set, incl. the
+   `while self._index in self._unsorted` loop (deque/dict operations are modelled
+   calls; objects are opaque tokens, so the model is used at B := pv);
+   iout = Ok on normal return, Exc KeyError when `del self._cache[self._job]` fails *)
+Theorem C02_code_imap_set : forall (s : istate pv) (job i : Z) (obj : pv),
+    is_err obj = None ->
+    IM.iset (embi s job) (PInt i) obj = iout (imap_set s i obj) job.
+Proof. exact gen_iset_eq. Qed.
+Print Assumptions C02_code_imap_set.
+
+Theorem C02_code_imap_set_length : forall (s : istate pv) (job n : Z),
+    IM.iset_length (embi s job) (PInt n) = iout (imap_set_length s n) job.
+Proof. exact gen_iset_length_eq. Qed.
+Print Assumptions C02_code_imap_set_length.
+
+Theorem C02_code_imapu_set : forall (s : istate pv) (job i : Z) (obj : pv),
+    is_err obj = None ->
+    IM.uset (embi s job) (PInt i) obj = iout (imapu_set s i obj) job.
+Proof. exact gen_uset_eq. Qed.
+Print Assumptions C02_code_imapu_set.
+
 (* ---------------- chunking ---------------- *)
 
 Theorem C02_chunks_concat : forall (A : Type) (l : list A) (k : nat),
